@@ -74,7 +74,11 @@ def run(ctx):
                 ranks = 2 if (r2.random() < 0.2) else 1
                 out.append(e1run.Cfg(sched=r2.choice(e1suite.SCHEDS), cores=r2.choice([1, 2, 4, 8] + ([16] if thorough else [])), ranks=ranks, place='rand', pseed=r2.randint(1, 99),
                                      scenario=script, seed=ctx.seed, sleep=(r2.choice([0, 100]), 200),
-                                     yield_=('%d:300:%d' % (ctx.seed, r2.choice([0, 50])) if r2.random() < 0.5 else None)))
+                                     # half of the runs: short delays at every site; a quarter: long delays (<= 5 ms) only at the
+                                     # compound's own sites (before / after it enables the next member) so that a small successor
+                                     # can run to completion on other threads while the callback is still inside
+                                     yield_=(('%d:300:%d' % (ctx.seed, r2.choice([0, 50]))) if r2.random() < 0.5 else
+                                             (('%d:1000:5000:10000' % ctx.seed) if r2.random() < 0.5 else None))))
             return out
         S.post = None
         results = []
